@@ -13,8 +13,8 @@ def run(ctx, res):
     flow(ctx, res)
     defaults(ctx, res)
     from . import C01
-    res.rules_run.append("C12.entry (every `_with` entry point hands its options unchanged to the parser and feeds it the whole input through one character source whatever the flags are: the flags change nothing outside the string scanner)")
-    C01.entry_rule(ctx, res, rule="C12.entry")
+    res.rules_run.append("C12.entry (every `_with` entry point hands its options unchanged to the parser and takes no decision of its own on a flag: on every path to the core both flags are unconstrained)")
+    C01.entry_rule(ctx, res, rule="C12.entry", only_with_options=True)
 
 
 def flow(ctx, res):
